@@ -73,6 +73,7 @@ def call(fn, lab, forced=True, raised=()):
     except Exception as e:  # noqa
         out = classify(e, lab, raised)
         out["while_forcing"] = True  # raised while the caller consumed a lazy result, not by evaluate()
+        out["lazy"] = True
         return out
 
 
